@@ -87,7 +87,7 @@ def run(ctx):
 
 
 def _replay(sc, o):
-    return {"scenario": sc.ident(), "cmd": [C.WILD] + o["args"], "env": o["env"], "run_as_uid": o["uid"],
+    return {"scenario": sc.ident(), "cmd": [C.wild_display()] + o["args"], "env": o["env"], "run_as_uid": o["uid"],
             "prior_output": sc.prior, "rc": o["rc"], "output_after": o["out"],
             "before": {k: list(v) for k, v in o["before"].items() if k == sc.out_name},
             "after": {k: list(v) for k, v in o["after"].items() if k == sc.out_name}, "stderr": o["stderr"][-300:],
